@@ -310,6 +310,54 @@ def row_loops(body, res, xarg):
     return out, loops
 
 
+def _callee_overwrites(prog, body, d, l, depth=0):
+    """the call hands `&mut l` to a local function that completely overwrites the referent before any other use of it
+    (`fn helper(.., buf: &mut Vec<_>) { buf.clear(); buf.resize(..); .. }`)"""
+    f = d.data.get("f")
+    if not f or depth > 1:
+        return False
+    cal = None
+    for key in (f.get("resolved"), f.get("path")):
+        if key and key in prog.bodies:
+            cal = prog.bodies[key]
+    if cal is None:
+        return False
+    pos = [j for j, a in enumerate(d.data["args"]) if a["k"] in ("move", "copy") and not a["p"]["pr"]
+           and body.mutref_of.get(a["p"]["l"]) == l and _ref_chain_whole(body, a["p"]["l"], l)]
+    if len(pos) != 1 or pos[0] + 1 > cal.arg_count:
+        return False
+    prm = pos[0] + 1
+    if not cal.local_ty(prm).startswith("&mut"):
+        return False
+    full = []
+    for dd in cal.defs.get(prm, []):
+        if dd.kind == "mutcall" and dd.data["f"]["path"].endswith(FULL_OVERWRITE):
+            for a in dd.data["args"][:1]:
+                if a["k"] in ("move", "copy") and not a["p"]["pr"] and (a["p"]["l"] == prm or _ref_chain_whole(cal, a["p"]["l"], prm)):
+                    full.append((dd.bb, _idx_of(dd, cal)))
+    if not full:
+        return False
+    for bb in cal.reach:
+        if cal.blocks[bb]["cleanup"]:
+            continue
+        for idx, ll in mentions(cal, bb):
+            if ll != prm:
+                continue
+            st = cal.blocks[bb]["stmts"]
+            if idx < len(st) and st[idx]["k"] == "assign" and st[idx]["r"]["k"] in ("ref", "rawptr") and not st[idx]["p"]["pr"]:
+                # a reborrow: judged where the new reference is consumed
+                tgt = st[idx]["p"]["l"]
+                cons = _consumers(cal, cal.reach, tgt)
+                sites = [(cb, len(cal.blocks[cb]["stmts"])) for cb, _ in cons]
+                if sites and all(any(s == fd or (fd[0] != s[0] and cal.dominates(fd[0], s[0])) or (fd[0] == s[0] and fd[1] <= s[1])
+                                     for fd in full) for s in sites):
+                    continue
+            ok = any((fb == bb and fi <= idx) or (fb != bb and cal.dominates(fb, bb)) for (fb, fi) in full)
+            if not ok:
+                return False
+    return True
+
+
 def _is_rowvar(t, xarg):
     for s in subterms(t):
         if s[0] == "call" and s[1].endswith(ITER_NEXT) and s[2]:
@@ -366,6 +414,8 @@ def check(prog, body, xarg=2):
                         if a["k"] in ("move", "copy") and not a["p"]["pr"] and body.mutref_of.get(a["p"]["l"]) == l \
                                 and _ref_chain_whole(body, a["p"]["l"], l):
                             full.append((d.bb, _idx_of(d, body)))
+                elif d.kind == "mutcall" and _callee_overwrites(prog, body, d, l):
+                    full.append((d.bb, _idx_of(d, body)))
             reset_headers = _reset_loops(body, res, loops, l, nodes)
             full += _foreach_resets(body, prog, l, nodes)
 
